@@ -132,6 +132,19 @@ func main() {
 	}
 	close(ch)
 	wg.Wait()
+	// A watchdog timeout under the parallel run may be the machine's (memory pressure, CPU
+	// starvation) rather than zrnt's: such histories are repeated alone with a generous
+	// watchdog; a call that still does not return is logged as "timeout".
+	watchdog = 10 * time.Minute
+	for i := range jobs {
+		for _, ev := range results[i] {
+			if ev.Out == "timeout" {
+				fmt.Fprintf(os.Stderr, "gossip: history %d (%s) hit the watchdog, repeating it alone\n", i, jobs[i].h.Name)
+				results[i] = runHistory(jobs[i].v, jobs[i].h, i)
+				break
+			}
+		}
+	}
 
 	f := os.Stdout
 	if *out != "" {
